@@ -59,33 +59,74 @@ CLASS_DEFAULT = {
     "frozen": False, "kwOnly": False, "cacheHash": False, "autoExc": "unset", "isBaseExc": False,
     "autoDetect": "unset", "cmp": "none", "eq": "none", "order": "unset", "hash": "none",
     "unsafeHash": "none", "init": "none", "repr": "none", "str": False, "onSetattr": "none",
-    "transformer": "none", "ownSetattr": False, "ownEq": False, "ownHash": False, "ownInit": False,
+    "transformer": None, "ownSetattr": False, "ownEq": False, "ownHash": False, "ownInit": False,
     "ownRepr": False, "baseFrozen": False,
 }
 OPTB = ["unset", "t", "f"]
 F3 = ["none", "t", "f"]
 HASH = ["none", "t", "f", "bad"]
-TRS = ["none", "reverse", "dropFirst", "kwOnlyAll", "addMandatory", "mandatoryFirst", "stripHooks",
-       "setDefaults"]
+_E_ID = {"kwOnly": "keep", "dflt": "keep", "init": "keep", "hooks": "keep"}
+
+
+def tr(shape="none", all=None, first=None, n_first=0, add="none"):  # noqa: A002
+    """a field transformer, described by what it returns (the Lean `Attrs.C15.Tr`)"""
+    return {"shape": shape, "all": dict(_E_ID, **(all or {})), "first": dict(_E_ID, **(first or {})),
+            "nFirst": n_first, "add": add}
+
+
+TR_ID = tr()
+# named transformers: reorder / drop / add, and per-field edits of kw_only, default, init, on_setattr
+TR_CATALOGUE = {
+    "none": TR_ID,
+    "reverse": tr("reverse"), "dropFirst": tr("dropFirst"), "dropLast": tr("dropLast"),
+    "mandatoryFirst": tr("mandatoryFirst"),
+    "addMandatory": tr(add="mandatoryLast"), "addDefaultedFirst": tr(add="defaultedFirst"),
+    "addKwMandatory": tr(add="kwMandatoryLast"),
+    "kwOnlyAll": tr(all={"kwOnly": "setT"}), "positionalAll": tr(all={"kwOnly": "setF"}),
+    "firstTwoPositional": tr(first={"kwOnly": "setF"}, n_first=2),
+    "firstPositional": tr(first={"kwOnly": "setF"}, n_first=1),
+    "firstKwOnly": tr(first={"kwOnly": "setT"}, n_first=1),
+    "kwOnlyButFirstTwo": tr(all={"kwOnly": "setT"}, first={"kwOnly": "setF"}, n_first=2),
+    "setDefaults": tr(all={"dflt": "setT"}), "dropDefaults": tr(all={"dflt": "setF"}),
+    "firstDefault": tr(first={"dflt": "setT"}, n_first=1), "firstNoDefault": tr(first={"dflt": "setF"}, n_first=1),
+    "initAll": tr(all={"init": "setT"}), "noInitAll": tr(all={"init": "setF"}),
+    "firstNoInit": tr(first={"init": "setF"}, n_first=1),
+    "stripHooks": tr(all={"hooks": "strip"}), "hookAll": tr(all={"hooks": "setHook"}),
+    "hookFirst": tr(first={"hooks": "setHook"}, n_first=1),
+    "reversePositional": tr("reverse", all={"kwOnly": "setF"}),
+    "positionalAddMandatory": tr(all={"kwOnly": "setF"}, add="mandatoryLast"),
+}
+TRS = list(TR_CATALOGUE)
+CLASS_DEFAULT["transformer"] = TR_ID
+
+
+def tr_name(d):
+    for k, v in TR_CATALOGUE.items():
+        if v == d:
+            return k
+    return "custom"
+
+
 CLASS_SPACE = {
     "api": ["attrS", "define", "makeClass"], "these": [False, True], "autoAttribs": OPTB,
     "annReversed": [False, True], "slots": OPTB, "frozen": [False, True], "kwOnly": [False, True],
     "cacheHash": [False, True], "autoExc": OPTB, "isBaseExc": [False, True], "autoDetect": OPTB,
     "cmp": F3, "eq": F3, "order": ["unset", "none", "t", "f"], "hash": HASH, "unsafeHash": HASH,
     "init": F3, "repr": F3, "str": [False, True],
-    "onSetattr": ["none", "hook", "noop", "validate", "convert"], "transformer": TRS,
+    "onSetattr": ["none", "hook", "noop", "validate", "convert"], "transformer": list(TR_CATALOGUE.values()),
     "ownSetattr": [False, True], "ownEq": [False, True], "ownHash": [False, True],
     "ownInit": [False, True], "ownRepr": [False, True], "baseFrozen": [False, True],
 }
 CFG_DEFAULT = {"badHash": 0, "hookKind": "fn", "explicit": False, "baseApi": "attrS", "baseSlots": False,
                "mid": "none", "hiddenFrozen": False, "collectByMro": False, "frozenAlias": False,
-               "fieldApi": "ib", "emptyBase": False, "containers": False}
+               "fieldApi": "ib", "emptyBase": False, "containers": False, "identityTr": False}
 NAMES = ["a", "b", "c", "d", "e"]
 BASE_NAMES = ["p", "q", "r"]
 
 RULE = ("cases = class options as written (api attr.s/define/make_class x these= x auto_attribs x slots x frozen x "
         "kw_only x cache_hash x auto_exc/exception base x auto_detect x cmp/eq/order x hash/unsafe_hash x init/repr/str "
-        "x class on_setattr x field_transformer x own __setattr__/__eq__/__hash__/__init__/__repr__ x frozen base) x "
+        "x class on_setattr x field_transformer (26 named ones: reorder / drop / add an attribute / kw_only, default, init, "
+        "on_setattr evolved to set or cleared for all or the leading fields; free-form combinations in the random stream) x own __setattr__/__eq__/__hash__/__init__/__repr__ x frozen base) x "
         "inherited attributes x fields as written (bare annotation / default / factory / @default / init / kw_only / "
         "cmp,eq,order incl. key callables / hash incl. non-bool / on_setattr hook,NO_OP / type= / annotation / validator "
         "/ converter). Streams: (1) for every seed specification (valid shapes x api x slots x inheritance position) "
@@ -99,7 +140,10 @@ ASSUMPTIONS = [
     "the decorator is applied as a function call to a class made with type(): field errors (class body) come before "
     "decorator-argument errors; with decorator syntax Python evaluates the decorator expression first",
     "single-inheritance shapes only (attrs base <- optional plain class <- class); C3 linearisation is CPython's",
-    "hooks, key callables, validators, converters, factories and transformers are fixed representative callables; "
+    "hooks, key callables, validators, converters and factories are fixed representative callables; field transformers are "
+    "the family `edit every attribute (kw_only/default/init/on_setattr: keep, set, clear), edit the leading n, reshape "
+    "(reverse, drop first/last, mandatory first), add one attribute` -- built from the case's description, which the model "
+    "interprets the same way (the order rule and the frozen/hook rules are judged on the returned list); "
     "non-bool hash values are 1, 0, 'yes', 2",
     "field names are distinct plain identifiers with distinct aliases (duplicate-alias SyntaxError is outside the table and not generated)",
 ]
@@ -115,7 +159,9 @@ LEVEL_TEXT = (
     "), C15_complete (every applicable rule is enforced), C15_no_spurious / C15_characterisation (defined iff "
     "nothing applies), C15_table + C15_kinds (each rule alone yields its documented type), C15_order_iff_exists_pair "
     "(the had_default loop raises iff a defaulted positional attribute at i is followed by a mandatory positional one "
-    "at j>i), C15_order_via_inheritance, C15_order_rule_kwonly_exempt / _kwonly_class, C15_first_field_error, "
+    "at j>i), C15_order_via_inheritance, C15_order_rule_kwonly_exempt / _kwonly_class (class-level kw_only exempts only if "
+    "the transformer does not clear kw_only), C15_transformer_output_is_checked (the rule is judged on the list the "
+    "transformer returned), C15_first_field_error, "
     "C15_checks_before_mutation (any builder whose only patch step is last leaves an arbitrary class dict unchanged when "
     "it raises) and C15_wrap_checks_before_mutation (attrs.wrap is such a builder and its outcome is the check list's), "
     "C15_slots_irrelevant, C15_initFalse_hook_rejected (fix 059f6c6), C15_defaults_documented (T1 tables), "
@@ -173,38 +219,47 @@ def _own_repr(self):
 BAD_HASH = [1, 0, "yes", 2]
 
 
-def _tr_reverse(cls, attrs_):
-    return list(reversed(attrs_))
+def _edit(a, e):
+    ch = {}
+    if e["kwOnly"] != "keep":
+        ch["kw_only"] = e["kwOnly"] == "setT"
+    if e["dflt"] != "keep":
+        ch["default"] = 0 if e["dflt"] == "setT" else NOTHING
+    if e["init"] != "keep":
+        ch["init"] = e["init"] == "setT"
+    if e["hooks"] != "keep":
+        ch["on_setattr"] = None if e["hooks"] == "strip" else _hook
+    return a.evolve(**ch) if ch else a
 
 
-def _tr_drop_first(cls, attrs_):
-    return list(attrs_)[1:]
+def _new_attribute(default=NOTHING, kw_only=False):
+    return attr.Attribute(name="zz", default=default, validator=None, repr=True, cmp=None, hash=None, init=True,
+                          inherited=False, kw_only=kw_only)
 
 
-def _tr_kw_only_all(cls, attrs_):
-    return [a.evolve(kw_only=True) for a in attrs_]
-
-
-def _tr_add_mandatory(cls, attrs_):
-    return [*attrs_, attr.Attribute(name="zz", default=NOTHING, validator=None, repr=True, cmp=None, hash=None,
-                                    init=True, inherited=False)]
-
-
-def _tr_mandatory_first(cls, attrs_):
-    return sorted(attrs_, key=lambda a: a.default is not NOTHING)
-
-
-def _tr_strip_hooks(cls, attrs_):
-    return [a.evolve(on_setattr=None) for a in attrs_]
-
-
-def _tr_set_defaults(cls, attrs_):
-    return [a.evolve(default=0) for a in attrs_]
-
-
-TR_FN = {"reverse": _tr_reverse, "dropFirst": _tr_drop_first, "kwOnlyAll": _tr_kw_only_all,
-         "addMandatory": _tr_add_mandatory, "mandatoryFirst": _tr_mandatory_first,
-         "stripHooks": _tr_strip_hooks, "setDefaults": _tr_set_defaults}
+def make_transformer(d):
+    """the real callable for a transformer description; attrs checks what this RETURNS"""
+    def transformer(cls, attrs_):
+        out = [_edit(a, d["all"]) for a in attrs_]
+        out = [_edit(a, d["first"]) if i < d["nFirst"] else a for i, a in enumerate(out)]
+        sh = d["shape"]
+        if sh == "reverse":
+            out = list(reversed(out))
+        elif sh == "dropFirst":
+            out = out[1:]
+        elif sh == "dropLast":
+            out = out[:-1]
+        elif sh == "mandatoryFirst":
+            out = sorted(out, key=lambda a: a.default is not NOTHING)
+        ad = d["add"]
+        if ad == "mandatoryLast":
+            out = [*out, _new_attribute()]
+        elif ad == "defaultedFirst":
+            out = [_new_attribute(default=0), *out]
+        elif ad == "kwMandatoryLast":
+            out = [*out, _new_attribute(kw_only=True)]
+        return out
+    return transformer
 
 
 def _hook_value(kind, cls_level=False):
@@ -431,8 +486,8 @@ def _class_kwargs(case, cfg):
         kw["on_setattr"] = setters.convert
     elif ex:
         kw["on_setattr"] = None
-    if case["transformer"] != "none":
-        kw["field_transformer"] = TR_FN[case["transformer"]]
+    if case["transformer"] != TR_ID or cfg.get("identityTr"):
+        kw["field_transformer"] = make_transformer(case["transformer"])
     if api != "define" and cfg.get("collectByMro"):
         kw["collect_by_mro"] = True
     return kw
@@ -744,6 +799,8 @@ def normalize(c):
     """repair a case so that it is well-formed (`Attrs.C15.wf`) and buildable; idempotent"""
     c = dict(c)
     cfg = dict(CFG_DEFAULT, **(c.get("cfg") or {}))
+    if isinstance(c["transformer"], str):
+        c["transformer"] = TR_CATALOGUE[c["transformer"]]
     if c["api"] == "define":
         c["cmp"] = "none"
     if c["api"] == "makeClass":
@@ -827,7 +884,7 @@ def dist(case, obs):
         "n_base": len(case["baseAttrs"]),
         "frozen/baseFrozen": f"{case['frozen']}/{case['baseFrozen']}",
         "autoAttribs": case["autoAttribs"],
-        "transformer": case["transformer"],
+        "transformer": tr_name(case["transformer"]),
         "stream": case.get("stream", "?"),
         "hook_position": pos,
         "field_rule": _applies_any_field_rule(case),
@@ -921,6 +978,7 @@ def rand_cfg(rng):
         "fieldApi": rng.choice(["ib", "field"]),
         "emptyBase": rng.random() < 0.2,
         "containers": rng.random() < 0.4,
+        "identityTr": rng.random() < 0.2,
     }
     return cfg
 
@@ -982,6 +1040,9 @@ def seeds():
         mk([A()], api="define", isBaseExc=True),
         mk([A(), Bf(dflt=True)], api="attrS", kwOnly=True),
         mk([A(dflt=True), Bf()], api="define", transformer="mandatoryFirst"),
+        mk([A(dflt=True), Bf()], api="attrS", kwOnly=True, transformer="firstPositional"),
+        mk([A(), Bf(dflt=True)], [battr("p")], api="define", kwOnly=True, transformer="positionalAll"),
+        mk([A(), Bf(dflt=True)], api="makeClass", transformer="firstNoDefault"),
         mk([A(), Bf(dflt=True)], api="attrS", onSetattr="hook"),
         mk([A(validator=True)], api="attrS", onSetattr="validate"),
         mk([A()], api="define", onSetattr="noop"),
@@ -1025,13 +1086,21 @@ def rule_grid():
         yield M([fld("p", **ann)], [battr("p", dflt=True)])
         yield M([fld("p", **ann), A(**ann)], [battr("p", dflt=True)])
         yield M([fld("q", **ann)], [battr("p"), battr("q", dflt=True)])
-        for tr in TRS:
-            yield M([A(dflt=True, **ann), Bf(**ann)], transformer=tr)
-            yield M([A(**ann), Bf(dflt=True, **ann)], transformer=tr)
-            yield M([A(**ann)], [battr("p", dflt=True)], transformer=tr)
-            yield M([A(dflt=True, **ann)], [battr("p")], transformer=tr)
-            yield M([A(dflt=True, **ann)], transformer=tr)
-            yield M([A(onSetattr="hook", **ann), Bf(dflt=True, **ann)], frozen=True, transformer=tr)
+        # transformers (reorder / drop / add / per-field edits of kw_only, default, init, hooks) x class-level kw_only
+        # x per-field kw_only x inheritance position: the rule is judged on what the transformer RETURNS
+        for t, kwo in itertools.product(TRS, (False, True)):
+            yield M([A(dflt=True, **ann), Bf(**ann)], transformer=t, kwOnly=kwo)
+            yield M([A(**ann), Bf(dflt=True, **ann)], transformer=t, kwOnly=kwo)
+            yield M([A(**ann)], [battr("p", dflt=True)], transformer=t, kwOnly=kwo)
+            yield M([A(dflt=True, **ann)], [battr("p")], transformer=t, kwOnly=kwo)
+            yield M([A(**ann), Bf(**ann)], [battr("p", dflt=True), battr("q")], transformer=t, kwOnly=kwo)
+            yield M([A(dflt=True, **ann)], transformer=t, kwOnly=kwo)
+            yield M([A(dflt=True, kwOnly=True, **ann), Bf(**ann)], transformer=t, kwOnly=kwo)
+            yield M([A(dflt=True, **ann), Bf(kwOnly=True, **ann)], transformer=t, kwOnly=kwo)
+            yield M([A(dflt=True, **ann), Bf(init=False, **ann), fld("c", **ann)], transformer=t, kwOnly=kwo)
+            yield M([A(**ann)], [battr("p", dflt=True, kwOnly=True)], transformer=t, kwOnly=kwo)
+            yield M([A(onSetattr="hook", **ann), Bf(dflt=True, **ann)], frozen=True, transformer=t, kwOnly=kwo)
+            yield M([A(**ann), Bf(dflt=True, **ann)], frozen=True, transformer=t, kwOnly=kwo)
         if aa:
             yield M([A(dflt=True, annotated=True), Bf(annotated=True)], annReversed=True)
             yield M([A(annotated=True), Bf(dflt=True, annotated=True)], annReversed=True)
@@ -1129,6 +1198,15 @@ def rand_case(rng):
     for k, vals in CLASS_SPACE.items():
         if k != "api" and rng.random() < p:
             c[k] = rng.choice(vals)
+    if rng.random() < 0.12:
+        # a free-form transformer: any combination of per-field edits, reshaping and an added attribute
+        be = lambda: rng.choice(["keep", "keep", "keep", "setT", "setF"])  # noqa: E731
+        he = lambda: rng.choice(["keep", "keep", "keep", "strip", "setHook"])  # noqa: E731
+        c["transformer"] = tr(rng.choice(["none", "none", "reverse", "dropFirst", "dropLast", "mandatoryFirst"]),
+                              all={"kwOnly": be(), "dflt": be(), "init": be(), "hooks": he()},
+                              first={"kwOnly": be(), "dflt": be(), "init": be(), "hooks": he()},
+                              n_first=rng.choice([0, 1, 1, 2, 3]),
+                              add=rng.choice(["none", "none", "mandatoryLast", "defaultedFirst", "kwMandatoryLast"]))
     n = rng.choice([0, 1, 2, 2, 3, 3, 4])
     pf = rng.choice([0.03, 0.08, 0.2])
     fields = [rand_field(rng, NAMES[i], pf) for i in range(n)]
@@ -1325,7 +1403,7 @@ def gen_cases(tier, rng):
     # (2) the hand-listed grid: complete in thorough, a seeded third in quick
     grid = list(rule_grid())
     if tier == "quick":
-        grid = [c for c in grid if rng.random() < 0.22]
+        grid = [c for c in grid if rng.random() < 0.2]
     # (1a) seeds and every single-option change
     for s in sd:
         yield _tag(s, "seed")
@@ -1387,12 +1465,12 @@ def gen_cases(tier, rng):
                 yield _tag(with_cfg(c, rng) if rng.random() < 0.3 else c, "pair")
 
     def randoms():
-        n = 9000 if tier == "quick" else 600000
+        n = 8000 if tier == "quick" else 600000
         for _ in range(n):
             yield rand_case(rng)
 
     pg, rg = pairs(), randoms()
-    budget_pairs = 11000 if tier == "quick" else None
+    budget_pairs = 9000 if tier == "quick" else None
     produced = 0
     while True:
         alive = False
